@@ -33,6 +33,22 @@ NONASCII = ["x = 'Ã©â‚¬'\n", "Ã© = 1\n", "# commentaire Ã©\nx = 1\n", "s = '''æ—
             "\ufeffx = 1\n", "\ufeffx = (1,\n 2 3)\n", "\ufeff", "\ufeff# c\nif a:\n  b\n c\n", "\ufeffÃ© = f'{Ã©=}'\n"]
 
 
+# constructs that run over physical lines on which no token starts (blank and comment lines inside brackets, `=` debug text, raw blocks):
+# the two entry points get those lines from different places; every newline convention, with and without a final line end
+SPANNING = ["f(a\n\n  b)\n", "f(a\n  # c\n  b)\n", "(a,\n\n b) += 1\n", "x = f'''{a =\n\n }'''\n", "x = [1,\n\n 2\n", "with! c:\n    a\n\n    b\nz = 1 1\n", "f!(a,\n\n b)\n", "x = '''a\n\nb''' 1\n",
+            "if a:\n\n    b\n  c\n", "def f(\n\n    a,\n  # k\n    b c):\n  pass\n", "x = (1 +\n\n\n  )\n", "x = f'{a!r =\n\n}' 2\n", "$(ls\n\n -l) 1\n", "y = 1\nx = {'k':\n\n  # c\n  v w}\n", "Ã© = (\n\n 'Ã¼' 1)\n"]
+
+
+def spanning_contents():
+    out = []
+    for s in SPANNING:
+        for nl in ("\n", "\r\n", "\r"):
+            t = s.replace("\n", nl)
+            out.append(t)
+            out.append(t[: -len(nl)])
+    return out
+
+
 def contents(rnd, n):
     pool = list(gen_xonsh.XONSH_STMTS + gen_xonsh.PY_STMTS + gen_py.SEEDS + gen_xonsh.UNTERMINATED + NONASCII * 6)
     out = []
@@ -101,7 +117,7 @@ def run_shard(shard):
         texts, envname = ([c["prev"]] if c.get("prev") is not None else []) + [c["text"]], c["env"]
     else:
         rnd = random.Random(f"{shard['seed']}:{shard.get('idx', 0)}")
-        texts = (NONASCII + CODED_FILES + gen_xonsh.UNTERMINATED[:40] if shard.get("idx", 0) == 0 else []) + contents(rnd, shard["n"])
+        texts = (NONASCII + CODED_FILES + spanning_contents() + gen_xonsh.UNTERMINATED[:40] if shard.get("idx", 0) == 0 else []) + contents(rnd, shard["n"])
         envname = shard["env"]
     res, err = run_env(envname, texts)
     if res is None:
